@@ -12,6 +12,7 @@ from concurrent.futures import ThreadPoolExecutor
 
 import gen_sem
 import vlib
+import scope_corr
 from vlib import hexs
 
 NEED_BIN = True
@@ -21,8 +22,10 @@ MANIFEST_ENTRY = {
                  "exhaustive permutation / partition / argument-order enumeration and repeated process runs on the implementation",
     "text": "Theorems for every declaration list: with unique names the lookup table, the verdict of every table-shaped rule, the "
             "multiset returned by the declaration sort and the duplicate scans are invariant under permutation (files are "
-            "concatenated, so partition, file order and HashMap seeds are permutations). That the analyzer's rules and transforms "
-            "have this shape is NOT proved; it is tied by enumerating all permutations of generated valid and single-fault units "
+            "concatenated, so partition, file order and HashMap seeds are permutations). For the declared-variable rule (scope-stack "
+            "model, compared with the rule on the resolved library) the verdict is the same for every order of the units and, with "
+            "one faulty unit, so are the name and place reported. That the other rules and transforms "
+            "have the table shape is NOT proved; it is tied by enumerating all permutations of generated valid and single-fault units "
             "(up to 4 declarations quick / 5 thorough), all partitions into <= 3 files, all argument orders, and by running the "
             "real binary repeatedly (fresh hash seeds), comparing verdict, code and the identifier the diagnostic points at.",
     "note": "Trusted: Coq kernel, harness ops analyze / project, the binary runner. HashMap RandomState can only be observed by "
@@ -109,6 +112,9 @@ def search(run, info):
                     cases.append({"id": len(cases), "op": "project", "files": [[nm, hexs(t)] for nm, t in order], "_texts": dict(order)})
             groups.append((kind, code, decls, idxs))
     res = vlib.run_impl([{k: v for k, v in c.items() if k != "_texts"} for c in cases], wd, per_case_timeout=30)
+    # the scope walk of the declared-variable rule against its Coq model, on a sample of the orders and partitions
+    step = max(1, len(cases) // (400 if run.tier == "quick" else 4000))
+    sc_n, sc_bad = scope_corr.check(run, [[(f[0], c["_texts"][f[0]]) for f in c["files"]] for c in cases[::step]], info, "c06")
     for gi, (kind, code, decls, idxs) in enumerate(groups):
         obs = {}
         for ci in idxs:
